@@ -5,6 +5,7 @@ TIER=$1; SEED=$2; shift 2
 IDS=${@:-C01 C02 C03 C04 C05 C06 C07 C08 C09 C10 C11 C12 C13 C14 C15 C16 C17 C18 C19 C20}
 mkdir -p /verif/target/sweep
 cd /verif
+[ -x /verif/target/rip-frozen ] && export RV_RIP_BIN=/verif/target/rip-frozen
 for id in $IDS; do
   s=$(date +%s)
   VERIF_SEED=$SEED /verif/target/rv-frozen $id --tier $TIER --out /verif/target/sweep/$id.$TIER.$SEED.json > /verif/target/sweep/$id.$TIER.$SEED.out 2>&1
